@@ -41,6 +41,7 @@ func main() {
 		runC19(rep, *tier, *seed, *replay)
 	case "C03", "C16":
 		runFaultSuite(rep, *tier, *seed, prop)
+		runSchedSuite(rep, *tier, *seed, prop)
 	case "C14", "C15":
 		runTeardownSuite(rep, *tier, *seed, prop)
 	case "C18":
